@@ -1456,7 +1456,7 @@ class AdvancedTag(object):
                 val = tostr(val)
 
             # Only binary attributes have a "present/not present"
-            if val or name not in TAG_ITEM_BINARY_ATTRIBUTES:
+            if val is not None and ( val or name not in TAG_ITEM_BINARY_ATTRIBUTES ):
                 # Escape any quotes found in the value
                 val = escapeQuotes(val)
 
@@ -1572,7 +1572,7 @@ class AdvancedTag(object):
 
                 This is suitable for passing back into AdvancedTag when creating a new tag.
         '''
-        return [ (tostr(name)[:], tostr(value)[:]) for name, value in self._attributes.items() ]
+        return [ (tostr(name)[:], (tostr(value)[:] if value is not None else None)) for name, value in self._attributes.items() ]
 
 
     def getAttributesDict(self):
@@ -1585,7 +1585,7 @@ class AdvancedTag(object):
               @return <dict ( str(name), str(value) )> - A dict of attrName to attrValue , all as strings and copies.
         '''
 
-        return { tostr(name)[:] : tostr(value)[:] for name, value in self._attributes.items() }
+        return { tostr(name)[:] : (tostr(value)[:] if value is not None else None) for name, value in self._attributes.items() }
 
 
     def setAttribute(self, attrName, attrValue):
